@@ -320,7 +320,7 @@ func (f *facts) flowTables(conn, tr *ast.File) string {
 		effect := func(n ast.Node) string {
 			switch x := n.(type) {
 			case *ast.CallExpr:
-				for suf, name := range map[string]string{".rlock.Lock": "lock", ".rlock.Unlock": "unlock", ".conn.Close": "close",
+				for suf, name := range map[string]string{".rlock.Lock": "lock", ".rlock.Unlock": "unlock", ".conn.Close": "close", ".abortRead": "close",
 					".skipResponseSizeAndID": "skip", ".leave": "leave", ".peekResponseSizeAndID": "peek"} {
 					if _, ok := callEnds(x, suf); ok {
 						return name
@@ -386,7 +386,7 @@ func (f *facts) flowTables(conn, tr *ast.File) string {
 			case len(ps) >= 3 && p == ps[2]:
 				last = "read"
 				return "read"
-			case strings.HasSuffix(p, ".conn.Close"):
+			case isConnClose(p):
 				return "close"
 			case p == lockVar+".Unlock":
 				return "unlock"
@@ -466,7 +466,7 @@ func (f *facts) flowTables(conn, tr *ast.File) string {
 					return "lock"
 				case strings.HasSuffix(p, ".wlock.Unlock"):
 					return "unlock"
-				case strings.HasSuffix(p, ".conn.Close"):
+				case isConnClose(p):
 					return "close"
 				case len(ps) >= 2 && p == ps[1]:
 					return "write"
@@ -811,7 +811,7 @@ func (f *facts) flowTables(conn, tr *ast.File) string {
 				case strings.HasSuffix(p, ".waitResponse"):
 					last = "waitResponse"
 					return "waitResponse"
-				case strings.HasSuffix(p, ".conn.Close"):
+				case isConnClose(p):
 					return "close"
 				}
 				return extra(p, x)
@@ -848,9 +848,39 @@ func (f *facts) flowTables(conn, tr *ast.File) string {
 		}
 	}
 	if fd := findFunc(conn, "Conn", "ApiVersions"); fd != nil {
+		// The meaning of `err` changes along the function (request, wait, body, then possibly the size check's error):
+		// the closures follow it.  `overwritten`: err was assigned the error of expectZeroSize (never a kafka.Error).
 		last = ""
-		classify := errAfter(map[string]string{"doRequest": "requestFailed", "waitResponse": "waitFailed", "read": "bodyReadFailed"}, func(e ast.Expr) string {
+		overwritten, sizeChecked := false, false
+		classify := func(e ast.Expr) string {
 			t := src(f.fset, e)
+			if bx, ok := e.(*ast.BinaryExpr); ok && (bx.Op == token.EQL || bx.Op == token.NEQ) && src(f.fset, bx.Y) == "nil" {
+				neg := ""
+				if bx.Op == token.EQL {
+					neg = "!"
+				}
+				if src(f.fset, bx.X) == "err" {
+					switch last {
+					case "doRequest":
+						return neg + "requestFailed"
+					case "waitResponse":
+						return neg + "waitFailed"
+					case "body":
+						if overwritten {
+							return neg + "always"
+						}
+						return neg + "bodyFailed"
+					}
+				} else if sizeChecked {
+					return neg + "trailingBytes"
+				}
+			}
+			if c, ok := e.(*ast.CallExpr); ok && selPath(c.Fun) == "errors.As" && len(c.Args) == 2 && src(f.fset, c.Args[0]) == "err" {
+				if overwritten {
+					return "never"
+				}
+				return "bodyKafkaError"
+			}
 			switch {
 			case strings.HasSuffix(t, ".IsZero()"):
 				return "noReadDeadline"
@@ -863,16 +893,47 @@ func (f *facts) flowTables(conn, tr *ast.File) string {
 				return "moreEntries"
 			}
 			return ""
-		})
-		effect := muxEffect(func(p string, c *ast.CallExpr) string {
-			if p == "readInt16" || p == "readInt32" {
-				last = "read"
-				return "read"
+		}
+		base := muxEffect(func(p string, c *ast.CallExpr) string {
+			switch {
+			case p == "readInt16" || p == "readInt32" || strings.HasSuffix(p, ".readApiVersions"):
+				last = "body"
+				return "readBody"
+			case p == "expectZeroSize":
+				sizeChecked = true
+				return "checkSize"
 			}
 			return ""
 		})
-		rows, unk := f.runScenariosFixed(fd, []string{"requestFailed", "waitFailed", "bodyReadFailed", "countOutOfBounds", "errorCodeInAnswer"},
-			map[string]bool{"noReadDeadline": false, "moreEntries": false}, map[string]bool{"__dedupe": true}, classify, effect)
+		effect := func(n ast.Node) string {
+			if as, ok := n.(*ast.AssignStmt); ok && as.Tok == token.ASSIGN && len(as.Lhs) == 1 && len(as.Rhs) == 1 &&
+				src(f.fset, as.Lhs[0]) == "err" && sizeChecked {
+				if id, ok := as.Rhs[0].(*ast.Ident); ok && id.Name != "err" {
+					overwritten = true
+				}
+			}
+			r := base(n)
+			if r == "doRequest" {
+				overwritten, sizeChecked = false, false
+			}
+			return r
+		}
+		var names [][]string
+		var scens []map[string]bool
+		mk := func(req, wait bool, body string, trailing bool) map[string]bool {
+			return map[string]bool{"requestFailed": req, "waitFailed": wait, "bodyFailed": body != "ok", "bodyKafkaError": body == "kafka",
+				"trailingBytes": trailing, "always": true, "never": false,
+				"noReadDeadline": false, "countOutOfBounds": false, "errorCodeInAnswer": false, "moreEntries": false}
+		}
+		names = append(names, []string{"requestFailed=true"}, []string{"waitFailed=true"})
+		scens = append(scens, mk(true, false, "ok", false), mk(false, true, "ok", false))
+		for _, body := range []string{"ok", "kafka", "other"} {
+			for _, tr := range []bool{false, true} {
+				names = append(names, []string{"body=" + body, fmt.Sprintf("trailingBytes=%v", tr)})
+				scens = append(scens, mk(false, false, body, tr))
+			}
+		}
+		rows, unk := f.runScenarioList(fd, names, scens, classify, effect)
 		emit("apiVersionsFlow", rows, unk)
 	}
 	if fd := findFunc(conn, "Conn", "ReadBatchWith"); fd != nil {
